@@ -129,6 +129,44 @@ static URI_INLINE UriBool URI_FUNC(EqualsAuthority)(const URI_TYPE(Uri) * first,
 
 
 
+static URI_INLINE UriBool URI_FUNC(IsDotSegment)(const URI_TYPE(PathSegment) * segment) {
+	const int len = (int)(segment->text.afterLast - segment->text.first);
+	return (((len == 1) || (len == 2))
+			&& (segment->text.first[0] == _UT('.'))
+			&& (segment->text.first[len - 1] == _UT('.'))) ? URI_TRUE : URI_FALSE;
+}
+
+
+
+/* Tells whether a directory of the path (any segment but the last) is "." or ".." */
+static URI_INLINE UriBool URI_FUNC(HasDotSegmentDirectory)(const URI_TYPE(Uri) * uri) {
+	const URI_TYPE(PathSegment) * walker = uri->pathHead;
+	while ((walker != NULL) && (walker->next != NULL)) {
+		if (URI_FUNC(IsDotSegment)(walker)) {
+			return URI_TRUE;
+		}
+		walker = walker->next;
+	}
+	return URI_FALSE;
+}
+
+
+
+/* Releases the nodes of a path copied by CopyPath (the text is borrowed) */
+static URI_INLINE void URI_FUNC(FreePathNodes)(URI_TYPE(Uri) * uri,
+		UriMemoryManager * memory) {
+	URI_TYPE(PathSegment) * walker = uri->pathHead;
+	while (walker != NULL) {
+		URI_TYPE(PathSegment) * const next = walker->next;
+		memory->free(memory, walker);
+		walker = next;
+	}
+	uri->pathHead = NULL;
+	uri->pathTail = NULL;
+}
+
+
+
 static int URI_FUNC(RemoveBaseUriImpl)(URI_TYPE(Uri) * dest,
 		const URI_TYPE(Uri) * absSource,
 		const URI_TYPE(Uri) * absBase,
@@ -369,8 +407,45 @@ int URI_FUNC(RemoveBaseUriMm)(URI_TYPE(Uri) * dest,
 
 	URI_CHECK_MEMORY_MANAGER(memory);  /* may return */
 
-	res = URI_FUNC(RemoveBaseUriImpl)(dest, absSource,
-			absBase, domainRootMode, memory);
+	if ((dest != NULL) && (absSource != NULL) && (absBase != NULL)
+			&& URI_FUNC(HasDotSegmentDirectory)(absBase)) {
+		/* The directories of the base path get counted, which means nothing
+		 * while "." and ".." are among them ("a/./b" is one level deep,
+		 * "a/../b" none): work on a copy of the base with these directories
+		 * resolved the way reference resolution will resolve them.  The last
+		 * segment is not a directory and stays as it is. */
+		URI_TYPE(Uri) cleanBase = *absBase;
+		URI_TYPE(TextRange) lastText;
+		UriBool lastIsDot;
+		cleanBase.owner = URI_FALSE;
+		cleanBase.pathHead = NULL;
+		cleanBase.pathTail = NULL;
+		if (!URI_FUNC(CopyPath)(&cleanBase, absBase, memory)) {
+			URI_FUNC(FreePathNodes)(&cleanBase, memory);
+			URI_FUNC(ResetUri)(dest);
+			return URI_ERROR_MALLOC;
+		}
+		lastText = cleanBase.pathTail->text;
+		lastIsDot = URI_FUNC(IsDotSegment)(cleanBase.pathTail);
+		if (lastIsDot) {
+			/* Anything but a dot segment */
+			cleanBase.pathTail->text.first = URI_FUNC(SafeToPointTo);
+			cleanBase.pathTail->text.afterLast = URI_FUNC(SafeToPointTo) + 1;
+		}
+		if (!URI_FUNC(RemoveDotSegmentsEx)(&cleanBase, URI_FALSE, URI_FALSE, memory)) {
+			URI_FUNC(FreePathNodes)(&cleanBase, memory);
+			URI_FUNC(ResetUri)(dest);
+			return URI_ERROR_MALLOC;
+		}
+		cleanBase.pathTail->text = lastText;
+
+		res = URI_FUNC(RemoveBaseUriImpl)(dest, absSource,
+				&cleanBase, domainRootMode, memory);
+		URI_FUNC(FreePathNodes)(&cleanBase, memory);
+	} else {
+		res = URI_FUNC(RemoveBaseUriImpl)(dest, absSource,
+				absBase, domainRootMode, memory);
+	}
 	if ((res != URI_SUCCESS) && (dest != NULL)) {
 		URI_FUNC(FreeUriMembersMm)(dest, memory);
 	}
